@@ -224,6 +224,21 @@ func init() {
 	wrap("(*regexp.Regexp).FindStringSubmatch", func(fr *frame, a []value) value {
 		return fr.i.findSubmatchSym(fr, regexPattern(a[0]), st(a[1]))
 	})
+	// decimal text of symbolic integers
+	decimal := func(conc externalFn) externalFn {
+		return func(fr *frame, a []value) value {
+			if sv, ok := a[0].(symv); ok {
+				if len(a) > 1 && concInt(a[1], "base") != 10 {
+					panic(engineError{"FormatInt base != 10 on a symbolic integer"})
+				}
+				t := toInt(sv).(symv)
+				return (&sstr{[]spart{{sym: &t}}}).norm()
+			}
+			return conc(fr, a)
+		}
+	}
+	natives["strconv.FormatInt"] = decimal(natives["strconv.FormatInt"])
+	natives["strconv.Itoa"] = decimal(natives["strconv.Itoa"])
 	_ = strconv.Itoa
 }
 
